@@ -399,7 +399,7 @@ func (w *world) do(e event) {
 				}
 				time.Sleep(200 * time.Microsecond)
 			}
-			time.Sleep(2 * time.Millisecond) // let the RemoveCallback of the last refused Send finish
+			time.Sleep(10 * time.Millisecond) // let the RemoveCallback of the last refused Send finish
 			r.phase = "done"
 		case r.phase == "scan":
 			w.waitStable(r)
